@@ -37,6 +37,8 @@ type fileSpec struct {
 	Kind string `json:"kind"` // J | B | JO | JB | PM
 	Body []act  `json:"body,omitempty"`
 	Main string `json:"main,omitempty"`
+	// Decoy: other keys a careless decoder might take for "main" (the model only knows Main, the value of the exact key)
+	Decoy int `json:"decoy,omitempty"`
 }
 
 type topCall struct {
@@ -245,6 +247,19 @@ func bodySource(f fileSpec) string {
 	case "JB":
 		return `{"j": `
 	case "PM":
+		switch f.Decoy {
+		case 1: // a differently spelled key after the real one
+			return fmt.Sprintf(`{"main": %s, "Main": "decoy.js", "j": %q}`, jsString(f.Main), f.Path)
+		case 2: // ... and before it
+			return fmt.Sprintf(`{"MAIN": "decoy.js", "main": %s, "j": %q}`, jsString(f.Main), f.Path)
+		case 3: // a differently spelled key of another type
+			return fmt.Sprintf(`{"Main": 5, "main": %s, "j": %q}`, jsString(f.Main), f.Path)
+		case 4: // the exact key twice: the last one counts (JSON.parse)
+			return fmt.Sprintf(`{"main": "decoy.js", "main": %s, "j": %q}`, jsString(f.Main), f.Path)
+		}
+		if f.Main == "" && f.Decoy == 5 { // no exact key at all, only look-alikes
+			return fmt.Sprintf(`{"Main": "decoy.js", "mAin": "decoy.js", "j": %q}`, f.Path)
+		}
 		return fmt.Sprintf(`{"main": %s, "j": %q}`, jsString(f.Main), f.Path)
 	}
 	var sb strings.Builder
@@ -581,7 +596,16 @@ func (g *gen) genCase() reqCase {
 		// a directory module with some of: package.json, index.js, index.json, lib.js, lib/index.js, sub.js
 		switch x := r.Intn(10); {
 		case x < 5:
-			add(fileSpec{Path: d + "/package.json", Kind: "PM", Main: mains[r.Intn(len(mains))]})
+			pm := fileSpec{Path: d + "/package.json", Kind: "PM", Main: mains[r.Intn(len(mains))]}
+			if r.Chance(30) {
+				pm.Decoy = 1 + r.Intn(4)
+				if pm.Main == "" {
+					pm.Decoy = 5
+				}
+				add(fileSpec{Path: d + "/decoy.js", Kind: "J", Body: []act{{K: "S", A: "t1"}}})
+				g.st.Hit("package.json:decoy-keys")
+			}
+			add(pm)
 		case x < 6:
 			add(fileSpec{Path: d + "/package.json", Kind: "JB"})
 		case x < 7:
